@@ -160,6 +160,8 @@ pub struct StateStore {
     checkpoints: Arc<RwLock<Vec<CheckpointMetadata>>>,
     /// Last checkpoint time
     last_checkpoint: Arc<RwLock<u64>>,
+    /// Millisecond id and highest suffix handed out for it (ids are never reused)
+    last_checkpoint_id: Arc<RwLock<Option<(String, u32)>>>,
     /// Redis connection (if using Redis backend)
     #[cfg(feature = "streaming-redis")]
     redis_client: Option<Arc<RwLock<Client>>>,
@@ -191,6 +193,7 @@ impl StateStore {
             state: Arc::new(RwLock::new(HashMap::new())),
             checkpoints: Arc::new(RwLock::new(Vec::new())),
             last_checkpoint: Arc::new(RwLock::new(0)),
+            last_checkpoint_id: Arc::new(RwLock::new(None)),
             #[cfg(feature = "streaming-redis")]
             redis_client,
         }
@@ -502,6 +505,34 @@ impl StateStore {
             None => checkpoint_id,
         };
 
+        // Two checkpoints can be taken within the same millisecond (and a previous process
+        // may have left a directory for this millisecond): never reuse an id.
+        let checkpoint_id = {
+            let checkpoints = self.checkpoints.read().unwrap();
+            let mut last_id = self.last_checkpoint_id.write().unwrap();
+            let taken = |id: &str| {
+                checkpoints.iter().any(|c| c.id == id)
+                    || matches!(&self.config.backend, StateBackend::File { path } if path.join(id).exists())
+            };
+            // Continue after the last suffix handed out for this millisecond, even if the
+            // checkpoint that carried it has been dropped by retention in the meantime
+            let mut suffix = match &*last_id {
+                Some((base, used)) if *base == checkpoint_id => used + 1,
+                _ => 0,
+            };
+            let mut candidate = if suffix == 0 {
+                checkpoint_id.clone()
+            } else {
+                format!("{}_{}", checkpoint_id, suffix)
+            };
+            while taken(&candidate) {
+                suffix += 1;
+                candidate = format!("{}_{}", checkpoint_id, suffix);
+            }
+            *last_id = Some((checkpoint_id.clone(), suffix));
+            candidate
+        };
+
         let state = self.state.read().unwrap();
         let snapshot: HashMap<String, Value> = state
             .iter()
@@ -548,7 +579,10 @@ impl StateStore {
                     RuleEngineError::ExecutionError(format!("Failed to serialize state: {}", e))
                 })?;
 
-                let mut file = fs::File::create(&data_path).map_err(|e| {
+                // Write to a temporary name and rename, so that `state.json` is either
+                // absent or complete if the process dies while writing
+                let tmp_path = checkpoint_path.join("state.json.tmp");
+                let mut file = fs::File::create(&tmp_path).map_err(|e| {
                     RuleEngineError::ExecutionError(format!(
                         "Failed to create checkpoint file: {}",
                         e
@@ -570,6 +604,13 @@ impl StateStore {
                 })?;
                 #[cfg(rre_verif)]
                 crate::verif_hooks::crash_point("checkpoint:after_write");
+                drop(file);
+                fs::rename(&tmp_path, &data_path).map_err(|e| {
+                    RuleEngineError::ExecutionError(format!(
+                        "Failed to publish checkpoint file: {}",
+                        e
+                    ))
+                })?;
 
                 let metadata = CheckpointMetadata {
                     id: checkpoint_id.clone(),
